@@ -32,7 +32,8 @@ def select_harnesses(all_h, prop, tier, extra=None):
     return out
 
 
-GLOBAL_BACKENDS = [(r'^c04_labels$|^c04_lea_label$', ['sat', 'z3']), (r'^c04_memory_addr$', [('z3', 'cvc5'), 'sat-arrays'])]
+GLOBAL_BACKENDS = [(r'^c\d\d_run_|^c\d\d_twin_run_', ['sat', 'z3']),
+                   (r'^c04_labels$|^c04_lea_label$', ['sat', 'z3']), (r'^c04_memory_addr$', [('z3', 'cvc5'), 'sat-arrays'])]
 
 
 def backend_chain(name, cfg, tier):
